@@ -230,7 +230,7 @@ impl GearSets {
 
         let header = DatHeader::read(&mut cursor).ok()?;
 
-        let mut buffer = vec![0; header.content_size as usize - 1];
+        let mut buffer = vec![0; (header.content_size as usize).checked_sub(1)?];
         cursor.read_exact(&mut buffer).ok()?;
 
         let decoded = buffer.iter().map(|x| *x ^ GEARSET_KEY).collect::<Vec<_>>();
